@@ -261,7 +261,9 @@ func (progBldr *ProgBuilder) Deref() {
 		if err != nil {
 			ctx.execError(err.Error(), "")
 		}
-		ctx.actualPathStack.PushPath(lrefentry.GetSdcpbPath())
+		// The steps that follow append to the path: work on a copy, not on
+		// the path the data tree handed out.
+		ctx.actualPathStack.PushPath(lrefentry.GetSdcpbPath().DeepCopy())
 	}
 
 	progBldr.CodeFn(derefFunc, "deref")
